@@ -1318,7 +1318,7 @@ func (c *Ctx) checkDestroyOrder(r *Report, ro *Roles) {
 	src := func(in ssa.Instruction) string {
 		return c.accessPath(in.(ssa.CallInstruction).Common().Value, &Frame{Fn: d})
 	}
-	if !strings.Contains(src(logStops[0]), "global.loggers") || !strings.Contains(src(appStops[0]), "global.appenders") {
+	if !strings.HasPrefix(src(logStops[0]), "global:") || !strings.HasPrefix(src(appStops[0]), "global:") || src(logStops[0]) == src(appStops[0]) {
 		bad = append(bad, fmt.Sprintf("stopped values are not the elements of the global lists (%s, %s)", src(logStops[0]), src(appStops[0])))
 	}
 	if len(bad) > 0 {
@@ -1342,7 +1342,7 @@ func (c *Ctx) checkDestroyOrder(r *Report, ro *Roles) {
 		}
 		if st, ok := in.(*ssa.Store); ok {
 			p := c.accessPath(st.Addr, fr)
-			if p == "global:global.loggers" || p == "global:global.appenders" {
+			if p == c.names().LoggerList || p == c.names().AppenderList {
 				// value = append(list, elem)
 				if call, ok := st.Val.(*ssa.Call); ok {
 					if b, ok := call.Call.Value.(*ssa.Builtin); ok && b.Name() == "append" {
